@@ -422,6 +422,8 @@ class BuiltinsMixin(object):
                 return False
             if isinstance(a, Const):
                 return a.v is None
+            if isinstance(a, Sym) and a.typ is not None:
+                return False
             return None
         if isinstance(a, Obj) and isinstance(b, Obj):
             return a.oid == b.oid
